@@ -27,6 +27,7 @@ from checks import simlib
 PID = "C18"
 TOL = Fraction(1, 10 ** 9)
 LAWS = ["NeoHookean", "MooneyRivlin", "SaintVenantKirchhoff", "CiarletGeymonat"]
+LAWS_INVARIANT_FORM = LAWS + ["HolzapfelOgden"]
 
 
 def make_law(name, dim, consts=None):
@@ -42,6 +43,8 @@ def make_law(name, dim, consts=None):
         return H.CiarletGeymonat(dim, K=k.get("K", 4.0), K1=k.get("K1", 1.5), K2=k.get("K2", 0.5))
     if name == "SaintVenantKirchhoff":
         return H.SaintVenantKirchhoff(dim, lmbda=k.get("lmbda", 3.0), mu=k.get("mu", 1.25))
+    if name == "HolzapfelOgden":
+        return H.HolzapfelOgden(dim, 0.5, 1.25, 0.75, 1.5, 0.25, 2.0, 0.125, 1.0, 4.0, 0.5, 0.25, np.array([0.6, 0.8, 0.0]), np.array([-0.8, 0.6, 0.0]), ks=2.0)
     raise KeyError(name)
 
 
@@ -458,17 +461,20 @@ class FakeState:
     tables are arrays of fresh symbols.  What a law does with them (W, dWde = 2 sum dW/dI_k dI_k, d2Wde) is then checked for all invariant
     values at once; that the real tables are the derivatives of the real invariants is a separate job (job_tables)."""
 
-    def __init__(self, c, nd):
+    def __init__(self, c, nd, ninv=3):
         from EasyFEA.FEM import FeArray
 
-        self.I = [c.var(f"i{k + 1}", Fraction(1, 4), 8, shadow=[3, 3, 1][k] + Fraction(k + 1, 7)) for k in range(3)]
-        self.g = [np.array([c.var(f"g{k + 1}_{a}", -2, 2) for a in range(nd)], dtype=object) for k in range(3)]
+        self.ninv = ninv
+        names = ["i1", "i2", "i3", "i4", "i6", "i8"][:ninv]
+        self.I = [c.var(names[k], Fraction(1, 4), 8, shadow=[3, 3, 1, 1, 1, 0][k] + Fraction(k + 1, 7)) for k in range(ninv)]
+        self.g = [np.array([c.var(f"g{k + 1}_{a}", -2, 2) for a in range(nd)], dtype=object) for k in range(ninv)]
         self.H = []
-        for k in range(3):
+        for k in range(ninv):
             Hk = np.empty((nd, nd), dtype=object)
             for a in range(nd):
                 for b in range(a, nd):
-                    Hk[a, b] = Hk[b, a] = c.var(f"h{k + 1}_{a}{b}", -2, 2)
+                    # I4, I6, I8 are linear in C: their second-derivative tables are zero (that the real tables are is job_tables' business)
+                    Hk[a, b] = Hk[b, a] = c.var(f"h{k + 1}_{a}{b}", -2, 2) if k < 3 else 0
             self.H.append(Hk)
         self._fe = FeArray
         self.nd = nd
@@ -508,6 +514,34 @@ class FakeState:
     def Compute_d2I3dC(self):
         return self._v(self.H[2])
 
+    # anisotropic invariants (Holzapfel-Ogden): the fibre directions only select which invariant is meant
+    def Compute_I4(self, T=None):
+        return self._s(self.I[3])
+
+    def Compute_I6(self, T=None):
+        return self._s(self.I[4])
+
+    def Compute_I8(self, T1=None, T2=None):
+        return self._s(self.I[5])
+
+    def Compute_dI4dC(self, T=None):
+        return self._v(self.g[3])
+
+    def Compute_dI6dC(self, T=None):
+        return self._v(self.g[4])
+
+    def Compute_dI8dC(self, T1=None, T2=None):
+        return self._v(self.g[5])
+
+    def Compute_d2I4dC(self):
+        return self._v(self.H[3])
+
+    def Compute_d2I6dC(self):
+        return self._v(self.H[4])
+
+    def Compute_d2I8dC(self):
+        return self._v(self.H[5])
+
 
 def job_law_invariants(cfg):
     """law algebra in the invariants: dWde = 2 sum_k dW/dI_k dI_k and d2Wde = 4 sum_k dW/dI_k d2I_k + 4 sum_kl d2W/dI_k dI_l dI_k x dI_l, with the partial
@@ -519,8 +553,9 @@ def job_law_invariants(cfg):
     nd = 3 if dim == 2 else 6
     key = f"{name} dim={dim} (invariant form)"
     res.functions |= {f"{name}.Compute_W", f"{name}.Compute_dWde", f"{name}.Compute_d2Wde", "Models._utils TensorProd"}
-    st = FakeState(c, nd)
-    res.symbols = 3 + 3 * nd + 3 * nd * (nd + 1) // 2
+    ninv = 6 if name == "HolzapfelOgden" else 3
+    st = FakeState(c, nd, ninv)
+    res.symbols = ninv * (1 + nd + nd * (nd + 1) // 2)
     law = make_law(name, dim)
     mark = c.mark()
     with facade.symbolic():
@@ -530,57 +565,65 @@ def job_law_invariants(cfg):
     pcs = c.pc_since(mark)
     res.paths, res.path_conditions = 1, len(pcs)
     dW = [W.diff(i) for i in st.I]
-    d2W = [[dW[k].diff(st.I[l]) for l in range(3)] for k in range(3)]
+    d2W = [[dW[k].diff(st.I[l]) for l in range(ninv)] for k in range(ninv)]
 
     def replay(env):
+        # numeric state with the same duck-typed interface; partial derivatives of the law's W by central differences in the invariants
+        from EasyFEA.FEM import FeArray
+
         full = fenv(c, env)
         Iv = [float(as_sym(x).eval(full)) for x in st.I]
-        gv = [np.array([float(as_sym(x).eval(full)) for x in g]) for g in st.g]
+        gv = [np.array([float(as_sym(x).eval(full)) for x in g_]) for g_ in st.g]
+        Hv = [np.array([[float(as_sym(x).eval(full)) for x in row] for row in H_]) for H_ in st.H]
 
-        class Num:
+        class Num(FakeState):
             def __init__(s_, I):
-                s_.I = I
+                s_.I, s_.g, s_.H, s_._fe, s_.nd, s_.ninv = list(I), gv, Hv, FeArray, nd, ninv
 
             def _s(s_, x):
-                from EasyFEA.FEM import FeArray
                 return FeArray.asfearray(np.array([[x]], dtype=float))
 
             def _v(s_, x):
-                from EasyFEA.FEM import FeArray
                 return FeArray.asfearray(np.asarray(x, dtype=float).reshape((1, 1) + np.shape(x)))
 
-        ns = Num(Iv)
-        for k in range(3):
-            setattr(ns, f"Compute_I{k + 1}", (lambda k=k: ns._s(ns.I[k])))
-            setattr(ns, f"Compute_dI{k + 1}dC", (lambda k=k: ns._v(gv[k])))
-            setattr(ns, f"Compute_d2I{k + 1}dC", (lambda k=k: ns._v(np.zeros((nd, nd)))))
         lawf = make_law(name, dim)
-        S0 = np.asarray(lawf.Compute_dWde(ns))[0, 0]
-        h = 1e-6
-        want = np.zeros(nd)
-        for k in range(3):
+
+        def Wf(I):
+            return float(np.asarray(lawf.Compute_W(Num(I)))[0, 0])
+
+        h = 1e-4
+        dWn = np.zeros(ninv)
+        d2Wn = np.zeros((ninv, ninv))
+        for k in range(ninv):
             Ip, Im = list(Iv), list(Iv)
             Ip[k] += h
             Im[k] -= h
-            ns.I = Ip
-            wp = float(np.asarray(lawf.Compute_W(ns))[0, 0])
-            ns.I = Im
-            wm = float(np.asarray(lawf.Compute_W(ns))[0, 0])
-            want += 2 * (wp - wm) / (2 * h) * gv[k]
-        ns.I = Iv
-        err = float(np.abs(S0 - want).max())
-        return err > 1e-5 * max(1.0, float(np.abs(want).max())), {"invariants": Iv, "max|dWde - 2 sum dW/dI_k dI_k| (central differences)": err}
+            dWn[k] = (Wf(Ip) - Wf(Im)) / (2 * h)
+            for l in range(ninv):
+                Ipp, Ipm, Imp, Imm = list(Iv), list(Iv), list(Iv), list(Iv)
+                Ipp[k] += h; Ipp[l] += h
+                Ipm[k] += h; Ipm[l] -= h
+                Imp[k] -= h; Imp[l] += h
+                Imm[k] -= h; Imm[l] -= h
+                d2Wn[k, l] = (Wf(Ipp) - Wf(Ipm) - Wf(Imp) + Wf(Imm)) / (4 * h * h)
+        S0 = np.asarray(lawf.Compute_dWde(Num(Iv)))[0, 0]
+        D0 = np.asarray(lawf.Compute_d2Wde(Num(Iv)))[0, 0]
+        wantS = 2 * sum(dWn[k] * gv[k] for k in range(ninv))
+        wantD = 4 * sum(dWn[k] * Hv[k] for k in range(ninv)) + 4 * sum(d2Wn[k, l] * np.outer(gv[k], gv[l]) for k in range(ninv) for l in range(ninv))
+        eS = float(np.abs(S0 - wantS).max()) / max(1.0, float(np.abs(wantS).max()))
+        eD = float(np.abs(D0 - wantD).max()) / max(1.0, float(np.abs(wantD).max()))
+        return (eS > 1e-4 or eD > 1e-4), {"invariants": Iv, "rel_error_dWde_vs_central_differences_of_W": eS, "rel_error_d2Wde_vs_second_differences_of_W": eD}
 
-    pairs1 = [(S[a], sum(dW[k] * st.g[k][a] for k in range(3)) * 2) for a in range(nd)]
+    pairs1 = [(S[a], sum(dW[k] * st.g[k][a] for k in range(ninv)) * 2) for a in range(nd)]
     close_all(res, f"{key}: dWde = 2 sum_k (dW/dI_k) dI_k/dC with dW/dI_k differentiated from the law's own W", pairs1, pcs, replay, f"{name} stress = derivative of the energy (invariant form)",
               sample={"obligation": f"{key}: for all I1, I2, I3 > 0 and all tables: dWde[a] - 2 sum_k dW/dI_k g_k[a] = 0 (rational identity modulo the root definitions)"})
     pairs2 = []
     for a in range(nd):
         for b in range(nd):
-            want = sum(dW[k] * st.H[k][a, b] for k in range(3)) * 4 + sum(d2W[k][l] * st.g[k][a] * st.g[l][b] for k in range(3) for l in range(3)) * 4
+            want = sum(dW[k] * st.H[k][a, b] for k in range(ninv)) * 4 + sum(d2W[k][l] * st.g[k][a] * st.g[l][b] for k in range(ninv) for l in range(ninv)) * 4
             pairs2.append((D[a, b], want))
     close_all(res, f"{key}: d2Wde = 4 sum_k dW/dI_k d2I_k + 4 sum_kl d2W/dI_k dI_l dI_k x dI_l", pairs2, pcs, replay, f"{name} tangent = derivative of the stress (invariant form)")
-    tw = prove_abs_le(as_sym(S[0]) - sum(dW[k] * st.g[k][0] for k in range(3)), TOL, pcs, "twin")
+    tw = prove_abs_le(as_sym(S[0]) - sum(dW[k] * st.g[k][0] for k in range(ninv)), TOL, pcs, "twin")
     res.twin(f"{key} twin", tw.status == "cex")
     res.stubs |= facade.USED_STUBS
     return res
@@ -629,9 +672,12 @@ def job_tables(cfg):
         mark = c.mark()
         with facade.symbolic():
             st = SymCState(g, np.zeros(mesh.Nn * dim), MatrixType.rigi)
-            I = [as_sym(np.asarray(f(), dtype=object).reshape(-1)[0]) for f in (st.Compute_I1, st.Compute_I2, st.Compute_I3)]
-            G = [np.asarray(f(), dtype=object).reshape(-1) for f in (st.Compute_dI1dC, st.Compute_dI2dC, st.Compute_dI3dC)]
-            Hh = [np.asarray(f(), dtype=object) for f in (st.Compute_d2I1dC, st.Compute_d2I2dC, st.Compute_d2I3dC)]
+            nPg = g.Get_gauss(MatrixType.rigi).nPg
+            T1 = FeArray.asfearray(np.tile(np.array([0.6, 0.8, 0.0]) if dim == 2 else np.array([2 / 7, 3 / 7, 6 / 7]), (g.Ne, nPg, 1)))
+            T2 = FeArray.asfearray(np.tile(np.array([-0.8, 0.6, 0.0]) if dim == 2 else np.array([3 / 7, -6 / 7, 2 / 7]), (g.Ne, nPg, 1)))
+            I = [as_sym(np.asarray(f(), dtype=object).reshape(-1)[0]) for f in (st.Compute_I1, st.Compute_I2, st.Compute_I3, lambda: st.Compute_I4(T1), lambda: st.Compute_I6(T2), lambda: st.Compute_I8(T1, T2))]
+            G = [np.asarray(f(), dtype=object).reshape(-1)[:nd] for f in (st.Compute_dI1dC, st.Compute_dI2dC, st.Compute_dI3dC, lambda: st.Compute_dI4dC(T1), lambda: st.Compute_dI6dC(T2), lambda: st.Compute_dI8dC(T1, T2))]
+            Hh = [np.asarray(f(), dtype=object) for f in (st.Compute_d2I1dC, st.Compute_d2I2dC, st.Compute_d2I3dC, st.Compute_d2I4dC, st.Compute_d2I6dC, st.Compute_d2I8dC)]
             Hh = [h.reshape(h.shape[-2:]) for h in Hh]
         pcs = c.pc_since(mark)
         res.paths, res.path_conditions = 1, len(pcs)
@@ -669,10 +715,12 @@ def job_tables(cfg):
                 bad = bad or errs[f"max|d{nm}dC - finite difference|"] > 1e-5
             return bad, {"C_kelvin_mandel": cv.tolist(), **errs}
 
-        for k in range(3):
-            close_all(res, f"{key}: dI{k + 1}dC = dI{k + 1}/dC (Kelvin-Mandel coordinates)", [(G[k][a], I[k].diff(ch[a])) for a in range(nd)], pcs, replay, f"invariant table dI{k + 1}dC dim={dim}",
+        for k in range(6):
+            nm = ["I1", "I2", "I3", "I4", "I6", "I8"][k]
+            tolk = 0 if k < 3 else Fraction(1, 10 ** 12)  # fibre directions are normalised floats
+            close_all(res, f"{key}: d{nm}dC = d{nm}/dC (Kelvin-Mandel coordinates)", [(G[k][a], I[k].diff(ch[a])) for a in range(nd)], pcs, replay, f"invariant table d{nm}dC dim={dim}", tol=tolk or TOL,
                       sample=None if k else {"obligation": f"{key}: for all symmetric C: dI_k dC[a] - d I_k / d c_a = 0, d2I_k dC[a,b] - d2 I_k / d c_a d c_b = 0 (polynomial identities modulo r^2 = 2)"})
-            close_all(res, f"{key}: d2I{k + 1}dC = d2I{k + 1}/dC2", [(Hh[k][a, b], I[k].diff(ch[a]).diff(ch[b])) for a in range(nd) for b in range(nd)], pcs, replay, f"invariant table d2I{k + 1}dC dim={dim}")
+            close_all(res, f"{key}: d2{nm}dC = d2{nm}/dC2", [(Hh[k][a, b], I[k].diff(ch[a]).diff(ch[b])) for a in range(nd) for b in range(nd)], pcs, replay, f"invariant table d2{nm}dC dim={dim}", tol=tolk or TOL)
         tw = prove_abs_le(as_sym(G[1][0]) - I[1].diff(ch[0]) * 2, TOL, pcs, "twin")
         res.twin(f"{key} twin", tw.status == "cex")
     finally:
@@ -769,7 +817,7 @@ def main():
     configs = []
     for dim in (2, 3):
         configs.append({"kind": "tables", "dim": dim})
-        for law in LAWS:
+        for law in LAWS_INVARIANT_FORM:
             configs.append({"kind": "law_invariants", "law": law, "dim": dim})
     # end-to-end through the displacement (stress = dW/de along every admissible direction, objectivity, stress-free reference)
     for law in ("NeoHookean", "MooneyRivlin", "SaintVenantKirchhoff"):
@@ -801,7 +849,7 @@ def main():
         bound={"elements": "one TRI3 (2-D), one TETRA4 (3-D)", "displacement_box": "+-1/8 per component (J > 0)", "laws": LAWS, "operators": ["SecondPiolaKirchhoffStressTensor", "ActiveStressTensor", "KelvinVoigtDamping", "TimeQuadratureStressTensor (fixed rule, nPoints 1-6 quick / 1-9 thorough)"],
                "rotations": "2-D symbolic angle; 3-D 3-4-5 about z and 5-12-13 about (2,3,6)/7"},
         symbolic=["nodal displacement components (4 in 2-D with node 0 fixed / 6 for operators; 9 / 12 in 3-D)", "nodal velocities (Kelvin-Voigt)", "material constants (reference configuration)", "rotation (c, s) in 2-D"],
-        assumptions=["Holzapfel-Ogden (nested exponentials), user energies through jax AutoDiff (FFI), the Gonzalez discrete-gradient operator and the adaptive path quadrature, penalty contact (KD-tree), follower pressure and multi-step energy conservation (Newton iterations "
+        assumptions=["Holzapfel-Ogden end to end through the displacement (it is checked in invariant form only: exponentials as opaque functions with their derivative rule), user energies through jax AutoDiff (FFI), the Gonzalez discrete-gradient operator and the adaptive path quadrature, penalty contact (KD-tree), follower pressure and multi-step energy conservation (Newton iterations "
                      "to a float tolerance) are outside", "one element, first-order shape functions: the deformation gradient is general but uniform"],
         source_files=["EasyFEA/Models/HyperElastic/_laws.py", "EasyFEA/Models/HyperElastic/_state.py", "EasyFEA/FEM/Operators/NonLinear.py", "EasyFEA/Models/_utils.py"],
         rule="one job per (law, dimension) and per (operator, law, dimension); non-trivial = symbolic displacement with exact symbolic differentiation",
